@@ -119,6 +119,32 @@ func rename(enc *Enc, mask int, suffix string, n *int) {
 	}
 }
 
+// Reprefix puts prefix in front of the family names of the layers selected by
+// mask: what a sender that moved those types from another directory transmits.
+func Reprefix(enc *Enc, mask int, prefix string) {
+	n := 0
+	reprefix(enc, mask, prefix, &n)
+}
+
+func reprefix(enc *Enc, mask int, prefix string, n *int) {
+	bit := mask&(1<<uint(*n)) != 0
+	*n++
+	switch x := enc.Error.(type) {
+	case *errorspb.EncodedError_Leaf:
+		if bit {
+			x.Leaf.Details.ErrorTypeMark.FamilyName = prefix + x.Leaf.Details.ErrorTypeMark.FamilyName
+		}
+		for _, c := range x.Leaf.MultierrorCauses {
+			reprefix(c, mask, prefix, n)
+		}
+	case *errorspb.EncodedError_Wrapper:
+		if bit {
+			x.Wrapper.Details.ErrorTypeMark.FamilyName = prefix + x.Wrapper.Details.ErrorTypeMark.FamilyName
+		}
+		reprefix(&x.Wrapper.Cause, mask, prefix, n)
+	}
+}
+
 // Unrename undoes Rename.
 func Unrename(enc *Enc, suffix string) {
 	strip := func(s string) string {
